@@ -96,7 +96,30 @@ func Find() {
 	sym.Observe("start", start)
 	sym.Observe("stop", stopSel)
 
-	got, err := file.Find(nopLogger{}, levels[start], stop)
+	// The start directory may be given relative to the working directory (which is then one of
+	// the levels at or above it): "always terminates" has no exception for that, although only
+	// the weaker clauses below are claimed for the result (spok itself always passes an absolute
+	// path). A seeded change that compared the climbing path with "/" never terminated from a
+	// relative start, and went unnoticed while every start was absolute (DESIGN.md 9.5).
+	startArg := levels[start]
+	relative := sym.ParamInt("relative", 1) == 1 && sym.Bool("relative_start")
+	if relative {
+		c := sym.Choice("cwd", start+1)
+		if c == start {
+			startArg = "."
+		} else {
+			startArg = strings.TrimPrefix(levels[start], levels[c]+"/")
+		}
+		if sym.Symbolic() {
+			vfs.Cwd = levels[c]
+		} else {
+			old, _ := os.Getwd()
+			os.Chdir(levels[c])
+			defer os.Chdir(old)
+		}
+		sym.Observe("cwd", c)
+	}
+	got, err := file.Find(nopLogger{}, startArg, stop)
 	sym.Reach("C17/returned")
 	rel := ""
 	if err == nil {
@@ -104,7 +127,7 @@ func Find() {
 	}
 	sym.Observe("found", rel)
 
-	if (stopSel <= depth && start >= stopSel) || stopSel == depth+1 {
+	if !relative && ((stopSel <= depth && start >= stopSel) || stopSel == depth+1) {
 		// start is at or below stop (the root is above everything): the nearest regular
 		// spokfile between them, or not found
 		lowest := stopSel
